@@ -19,6 +19,7 @@ def jobs(tier):
         job(M, "c07_table", "table/n3/star", dict(n=3, star=True, symbols=["C"], props="none"), max_seconds=ms),
         job(M, "c07_layout", "layout/blank-runs", dict(mode="gap"), max_seconds=ms),
         job(M, "c07_file", "graph_from_file/tempfile", {}, max_seconds=ms),
+        job(M, "c07_star_many", "table/star-with-many-endpoints", {}, max_seconds=ms),
         job(M, "c07_layout", "layout/continuation", dict(mode="split"), max_seconds=ms),
         job(M, "c07_layout", "layout/continuation-crlf", dict(mode="split", crlf=True), max_seconds=ms),
     ]
@@ -38,7 +39,7 @@ def main(tier):
     return run_check(
         "C07", tier, jobs(tier),
         bounds={"atoms": "1 atom line with every subset and order of CHG/RAD/MASS and one extra spec keyword at every position; 2-3 atoms (thorough 4) with symbolic unique indices in every file order, D/T symbols, solver-chosen bonds, one star atom with ENDPTS of every non-empty subset",
-                "values": "CHG in [-15, 15], RAD in [0, 3], MASS >= 0 (explicit defaults included), bond types any integer, file indices any distinct positive integers — all symbolic",
+                "values": "CHG in [-15, 15], RAD in [0, 3], MASS >= 0 (explicit defaults included), bond types 1..10 (V3000) / 1..8 (V2000), the types the specification defines, file indices any distinct positive integers — all symbolic",
                 "continuation lemma": "the real _concat_lines_with_dash on 'M  V30 '+line[:k]+'-' / 'M  V30 '+line[k:] for a line of symbolic length <= %d, symbolic characters and symbolic split position(s) k (one or two): reads back as the unsplit line" % (5000 if t else 1000),
                 "layout": "one blank run of 2-3 at every gap of every atom/bond line; one continuation at every column of every atom/bond line of a fixed 3-atom file (numbers concrete there); CRLF",
                 "keywords": "one of CFG VAL HCOUNT STBOX INVRET EXACHG SUBST UNSAT RBCNT ATTCHPT RGROUPS ATTCHORD CLASS SEQID on atom lines; CFG TOPO RXCTR STBOX on bond lines"},
